@@ -75,7 +75,7 @@ func (p *transformCmd) Execute(args cmdutils.ExecuteArgs) error {
 		scriptPath = p.transformFile
 	case p.transformFile == "-":
 		scriptBytes, err = io.ReadAll(args.Stdin)
-	case p.transformFile[0] == '\\':
+	case strings.HasPrefix(p.transformFile, "\\"):
 		scriptBytes = []byte(p.transformFile)
 	case regexp.MustCompile(`^[\w-]+\.[\w-]+/[\w-]+/[\w-]+/`).MatchString(p.transformFile):
 		scriptBytes = []byte(fmt.Sprintf("//{%s}", p.transformFile))
